@@ -157,7 +157,9 @@ class Ctx:
         known = [o for o in self.obls if o["verdict"] == "known-finding"]
         holds = [o for o in self.obls if o["verdict"] == "holds"]
         wall = time.time() - self.t0
-        rdir = os.path.join(VERIF, "reports", self.prop)
+        # a run against a scratch copy (tools/seeded.py --scratch) must not touch the reports / evidence of /repo's tree
+        scratch = bool(os.environ.get("VERIF_SCRATCH_RUN"))
+        rdir = os.path.join(VERIF, "reports", self.prop) if not scratch else os.path.join(os.environ.get("TMPDIR", "/tmp"), "rtrverif.reports.%d" % os.getpid(), self.prop)
         os.makedirs(rdir, exist_ok=True)
         for f in os.listdir(rdir):
             if f.endswith(".json"):
@@ -222,6 +224,10 @@ class Ctx:
         }
         if self.witness is not None:
             ev["coverage"]["witness"] = self.witness
+        if scratch:
+            import shutil
+            shutil.rmtree(os.path.dirname(rdir), ignore_errors=True)
+            return 1 if viol else 0
         os.makedirs(os.path.join(VERIF, "evidence"), exist_ok=True)
         with open(os.path.join(VERIF, "evidence", self.prop + ".json"), "w") as fh:
             json.dump(ev, fh, indent=1)
